@@ -183,7 +183,7 @@ theorem packedApprox_ttl (e : Entry) (now : Int) (ttl : Nat) (h : (packedApprox 
     e.deadlineNano > now ∧
     ((e.packed = true ∧ withinSlack e.packedTTL (curTtl e now) = true ∧ ttl = e.packedTTL) ∨
      ttl = curTtl e now ∨
-     (e.packed = true ∧ ttl = e.packedTTL ∧ (now - e.packedAt ≤ SEC ∨ e.ns = 2))) := by
+     (e.packed = true ∧ ttl = e.packedTTL ∧ e.packedTTL ≤ curTtl e now + SLACK)) := by
   unfold packedApprox at h
   by_cases h1 : e.deadlineNano ≤ now
   · rw [if_pos h1] at h; cases h
@@ -195,15 +195,12 @@ theorem packedApprox_ttl (e : Entry) (now : Int) (ttl : Nat) (h : (packedApprox 
       by_cases h3 : now - e.packedAt > SEC ∧ e.ns ≠ 2
       · rw [if_pos h3] at h; cases h; exact Or.inr (Or.inl rfl)
       · rw [if_neg h3] at h
-        by_cases h4 : e.packed = true
-        · simp only [h4, if_true] at h; cases h
-          refine Or.inr (Or.inr ⟨h4, rfl, ?_⟩)
-          by_cases h5 : e.ns = 2
-          · exact Or.inr h5
-          · left; by_cases h6 : now - e.packedAt > SEC
-            · exact absurd ⟨h6, h5⟩ h3
-            · omega
-        · simp [h4] at h
+        by_cases h4 : e.packed ∧ ¬ (e.packedTTL > curTtl e now ∧ e.packedTTL - curTtl e now > SLACK)
+        · rw [if_pos h4] at h; cases h
+          refine Or.inr (Or.inr ⟨h4.1, rfl, ?_⟩)
+          have := h4.2
+          omega
+        · rw [if_neg h4] at h; cases h
 
 
 
@@ -474,15 +471,7 @@ theorem fresh_ttl_bound {T now : Int} {k : Key} {e0 : Entry} {cfg : Cfg} {ign : 
     · rw [hcur] at hw
       exact withinSlack_le hw
     · rw [hcur]; omega
-    · rcases hg with hg | hg
-      · have h1 := ht.pttl hpk
-        have h2 := ht.pat hpk
-        rw [touch_packedTTL, touch_deadline, touch_packedAt] at h1
-        rw [touch_packedAt] at h2 hg
-        rw [touch_packedTTL, h1]
-        have := ttlFromDeadline_shift e0.deadline e0.packedAt now h2 hg
-        simp only [SLACK]; omega
-      · exact absurd hg (ht.pk hpk)
+    · rw [hcur] at hg; exact hg
   · obtain ⟨_, heq⟩ := hc
     rw [heq] at h; cases h
     refine ⟨?_, rfl, rfl, rfl, rfl, hd, rfl⟩
@@ -2047,6 +2036,35 @@ theorem requestKey_inj {n1 n2 : List Char} {q1 q2 c1 c2 : Nat} {r1 r2 : Route} (
 
 theorem requestKey_IN (n : List Char) (q : Nat) (r : Route) : requestKey n q classIN r = responseKey n q r := by
   simp [requestKey, responseKey, questionKey]
+
+
+
+/-- TTL shown on the fresh path — needs only `deadlineNano = deadline`, no assumption on the clock -/
+theorem fresh_ttl_bound_any_clock {now : Int} {e0 : Entry} {cfg : Cfg} {ign : Bool} {sv : Served}
+    (hdn : e0.deadlineNano = e0.deadline) (h : (lookupEntry cfg now ign e0).2 = .hit sv) (hs : sv.stale = false) :
+    sv.ttl ≤ max 1 ((e0.deadline - now) / SEC).toNat + SLACK ∧ sv.src = e0.src := by
+  rcases lookupEntry_cases cfg now ign e0 with ⟨hd, hc | hc⟩ | hc | hc
+  · obtain ⟨ttl, hp, heq⟩ := hc
+    rw [heq] at h; cases h
+    refine ⟨?_, rfl⟩
+    simp only [freshServed]
+    obtain ⟨_, hcases⟩ := packedApprox_ttl _ _ _ hp
+    have hcur : curTtl (touch e0 now) now = max 1 ((e0.deadline - now) / SEC).toNat := by
+      simp only [curTtl, touch_deadlineNano]; rw [hdn]
+    rcases hcases with ⟨_, hw, rfl⟩ | rfl | ⟨_, rfl, hg⟩
+    · rw [hcur] at hw; exact withinSlack_le hw
+    · rw [hcur]; omega
+    · rw [hcur] at hg; exact hg
+  · obtain ⟨_, heq⟩ := hc
+    rw [heq] at h; cases h
+    refine ⟨?_, rfl⟩
+    simp only [freshServed, touch_deadline]
+    have := ttlFromDeadline_le e0.deadline now
+    omega
+  · obtain ⟨_, _, ttl, _, heq⟩ := hc
+    rw [heq] at h; cases h; cases hs
+  · obtain ⟨_, _, heq⟩ := hc
+    rw [heq] at h; cases h
 
 
 end DaeVerif.C08
